@@ -484,6 +484,9 @@ func c06directed(c *mon.Ctx) {
 		{"a in b", func(a, b *model.Expr) *model.Expr { return model.Bin(model.OIn, a, b) }},
 		{"a in [b, X]", func(a, b *model.Expr) *model.Expr { return model.Bin(model.OIn, a, model.SetE(b, lx)) }},
 		{"a is U in b", func(a, b *model.Expr) *model.Expr { return model.IsIn(a, "U", b) }},
+		{"a is G in [b, 1]", func(a, b *model.Expr) *model.Expr { return model.IsIn(a, "G", model.SetE(b, model.Lit(model.Long(1)))) }},
+		{"a is G in b.nope", func(a, b *model.Expr) *model.Expr { return model.IsIn(a, "G", model.Access(b, "nope")) }},
+		{"X is G in [a, b, 1]", func(a, b *model.Expr) *model.Expr { return model.IsIn(lx, "G", model.SetE(a, b, model.Lit(model.Long(1)))) }},
 		{"a == b && true", func(a, b *model.Expr) *model.Expr { return model.Bin(model.OAnd, model.Bin(model.OEq, a, b), model.Lit(model.Bool(true))) }},
 		{"a == X || b == X", func(a, b *model.Expr) *model.Expr { return model.Bin(model.OOr, model.Bin(model.OEq, a, lx), model.Bin(model.OEq, b, lx)) }},
 		{"if a == X then b == X else true", func(a, b *model.Expr) *model.Expr {
